@@ -2064,6 +2064,16 @@ def call_concrete_method(ip: Any, recv: Any, name: str, bound: Any, args: list[A
             except Exception as e:
                 raise PyRaise(e) from None
     if isinstance(recv, (set, frozenset)) and sym_args:
+        # abstract objects (SObj without a value-equality class) are compared and hashed by identity, exactly like a
+        # Python object without __eq__: a concrete set of them behaves concretely
+        def _identity_obj(a: Any) -> bool:
+            return isinstance(a, SObj) and (a.cls is None or (getattr(a.cls, "__eq__", object.__eq__) is object.__eq__ and getattr(a.cls, "__hash__", None) is object.__hash__))
+
+        if name in ("add", "discard", "remove", "__contains__") and len(args) == 1 and _identity_obj(args[0]) and all(not V.contains_sym(m) or _identity_obj(m) for m in recv):
+            try:
+                return bound(*args)
+            except KeyError:
+                raise raise_(ip, KeyError, args[0]) from None
         raise Unsupported(f"set.{name} with symbolic argument")
     import contextvars as _cv
 
